@@ -485,6 +485,9 @@ func (e *Exec) load(fr *frame, instr ssa.Instruction, p PtrV) Value {
 			return e.zero(u.Type()) // total load in ghost code
 		}
 	}
+	if e.par != nil {
+		e.parAccessPtr(p, false)
+	}
 	if len(p.tgs) > 1 {
 		if v, ok := e.mergedLoad(p); ok {
 			return v
@@ -547,6 +550,9 @@ func (e *Exec) storeInto(T types.Type, addr *Value, v Value) {
 func (e *Exec) store(fr *frame, instr ssa.Instruction, T types.Type, p PtrV, v Value) {
 	if e.pureFork > 0 {
 		panic(unsupported("store under a symbolic branch inside ghost (spec/pure) code at " + e.where()))
+	}
+	if e.par != nil {
+		e.parAccessPtr(p, true)
 	}
 	if len(p.tgs) > 1 {
 		if e.mergedStore(T, p, v) {
@@ -1398,6 +1404,7 @@ func (e *Exec) mapFind(m *MapV, key Value) int {
 }
 
 func (e *Exec) mapUpdate(m *MapV, key, val Value) {
+	e.parAccessMap(m, true)
 	i := e.mapFind(m, key)
 	if i >= 0 {
 		m.vals[i] = copyVal(val)
@@ -1415,6 +1422,7 @@ func (e *Exec) lookup(fr *frame, in *ssa.Lookup) Value {
 		return e.strAt(s, idx)
 	}
 	m := x.(*MapV)
+	e.parAccessMap(m, false)
 	i := e.mapFind(m, e.get(fr, in.Index))
 	var v Value
 	if i >= 0 {
@@ -1445,6 +1453,7 @@ func (e *Exec) rangeIter(fr *frame, in *ssa.Range, x Value) Value {
 		return &StrIter{s: xv}
 	case *MapV:
 		it := &MapIter{m: xv}
+		e.parAccessMap(xv, false)
 		n := 0
 		if xv != nil {
 			n = len(xv.keys)
@@ -1523,6 +1532,7 @@ func (e *Exec) callBuiltin(fr *frame, pos token.Pos, fn *ssa.Builtin, args []Val
 			if x == nil {
 				return ts.Const(64, 0)
 			}
+			e.parAccessMap(x, false)
 			n := 0
 			for _, k := range x.keys {
 				if k != nil {
@@ -1556,8 +1566,12 @@ func (e *Exec) callBuiltin(fr *frame, pos token.Pos, fn *ssa.Builtin, args []Val
 			return s
 		}
 		n := len(s.data)
+		if sa, ok := args[1].(SliceV); ok {
+			e.parAccessCells(sa.data, false)
+		}
 		if n+len(add) <= cap(s.data) {
 			d := s.data[:n+len(add)]
+			e.parAccessCells(d[n:], true)
 			for i, v := range add {
 				d[n+i] = copyVal(v)
 			}
@@ -1567,6 +1581,7 @@ func (e *Exec) callBuiltin(fr *frame, pos token.Pos, fn *ssa.Builtin, args []Val
 		if nc < n+len(add) {
 			nc = n + len(add)
 		}
+		e.parAccessCells(s.data, false)
 		d := make([]Value, n+len(add), nc)
 		for i := 0; i < n; i++ {
 			d[i] = s.data[i] // moved, old backing keeps its own copies for scalars; structs copied
@@ -1600,6 +1615,8 @@ func (e *Exec) callBuiltin(fr *frame, pos token.Pos, fn *ssa.Builtin, args []Val
 		if len(src) < n {
 			n = len(src)
 		}
+		e.parAccessCells(src[:n], false)
+		e.parAccessCells(dst.data[:n], true)
 		// handle overlap like memmove
 		tmp := make([]Value, n)
 		for i := 0; i < n; i++ {
@@ -1609,6 +1626,7 @@ func (e *Exec) callBuiltin(fr *frame, pos token.Pos, fn *ssa.Builtin, args []Val
 		return ts.Const(64, uint64(n))
 	case "delete":
 		m := args[0].(*MapV)
+		e.parAccessMap(m, true)
 		i := e.mapFind(m, args[1])
 		if i >= 0 {
 			m.keys[i], m.vals[i] = nil, nil // tombstone (keeps range iterators valid)
